@@ -19,6 +19,10 @@ pub trait Coll: Sized {
     const KIND: &'static str;
     fn elem_name() -> String;
     fn tracked() -> bool;
+    /// whether the rayon route is available for this collection
+    fn send_elems() -> bool {
+        true
+    }
     fn id_space() -> u32;
     fn elem_size() -> usize;
     fn with_cap(bh: PlanBH, cap: usize) -> Self;
@@ -45,6 +49,12 @@ pub trait Coll: Sized {
     /// inserts the (absent) keys `ids` through `Extend`, from an iterator that reports `size_hint() = (lo, hi)`
     /// (collections without `Extend` insert one by one)
     fn extend_hinted(&mut self, ids: &[u32], gen: u16, _lo: usize, _hi: Option<usize>) {
+        for id in ids {
+            self.put(*id, gen);
+        }
+    }
+    /// inserts the (absent) keys through rayon's `ParallelExtend` (collections without it insert one by one)
+    fn par_extend_ids(&mut self, ids: &[u32], gen: u16) {
         for id in ids {
             self.put(*id, gen);
         }
@@ -185,6 +195,11 @@ impl<K: Elem, V: Elem> Coll for MapC<K, V> {
     fn extend_hinted(&mut self, ids: &[u32], gen: u16, lo: usize, hi: Option<usize>) {
         let items: Vec<(K, V)> = ids.iter().map(|id| (K::make(*id, gen), V::make(*id % V::ID_SPACE, gen))).collect();
         self.0.extend(Hinted { inner: items.into_iter(), lo, hi });
+    }
+    fn par_extend_ids(&mut self, ids: &[u32], gen: u16) {
+        use rayon::prelude::*;
+        let items: Vec<(K, V)> = ids.iter().map(|id| (K::make(*id, gen), V::make(*id % V::ID_SPACE, gen))).collect();
+        self.0.par_extend(items.into_par_iter());
     }
     fn check_findable(&self, d: &RawDump, f: &mut Facts, ctx: &str) {
         let bh = self.bh();
